@@ -201,7 +201,8 @@ class Sample(object):
                 "Failed to compute decay time correctly (%.1g error). Please"
                 " report material, mass, flux and exposure.") % percent_error
             raise RuntimeError(msg)
-        return t
+        # Rounding in the root finder can land a hair before removal time
+        return max(t, 0.)
 
     def _accumulate(self, activity):
         for el, activity_el in activity.items():
